@@ -423,6 +423,15 @@ class MainModel:
             src = self.info(argv[1])
             p.trace.append(("translate", kind, argv[-1], r, g.get("cur_path"), src))
             return [(disc(r) == 0, r), (disc(r) == 1, r)]
+        m = re.search(r"(^|::)(translate_reader::<(.*)>|translate_slice(::<.*>)?)$", fn)
+        if m and "Translator" not in fn:
+            # the convenience functions build a translator of their own for every call
+            self.rep.bad("K6.translator", "main() builds ONE translator over the one writer and sends every input through it: the output format's state (a TOML output refuses a second input), "
+                         "the buffer and the pipe check are shared by all inputs", {"kind": "exit1", "call": re.sub(r"<.*", "", fn)[:60]})
+            r = fresh("tr")
+            kind = "slice" if "translate_slice" in m.group(2) else ("stdin" if "StdinLock" in (m.group(3) or "") else "file" if "File" in (m.group(3) or "") else "reader")
+            p.trace.append(("translate", kind, argv[1] if len(argv) > 1 else None, r, g.get("cur_path"), self.info(argv[0])))
+            return [(disc(r) == 0, r), (disc(r) == 1, r)]
         if re.search(r"Translator::<.*>::flush$", fn):
             r = fresh("fl")
             p.trace.append(("flush", r))
@@ -479,6 +488,7 @@ def k_main(mir, rep, max_inputs=3):
     mm = MainModel(mir, rep, max_inputs)
     ex = X.Exec(mir, mm.handler)
     ex.inline = {r"format_is_unsafe_for_terminal$", r"InputPath::open$", r"InputPaths::<.*>::one$", r"InputPaths::<.*>::many$"}
+    ex.auto_inline_local = True   # helper functions main() may be split into are executed, not skipped
     stats = {"paths": 0, "exit0": 0, "exit1": 0, "exit2": 0, "translates": 0}
 
     def fin(p, how, value):
